@@ -93,7 +93,7 @@ def inputs(tier="quick"):
     for lit in ("'\\N'", "'C:\\data\\in'", "'a-b_c'", "'Y or N'"):
         dial.append(("lit", "CREATE TABLE t (c0 int, c1 varchar(20) DEFAULT %s, c2 varchar(9) COMMENT %s);" % (lit, lit)))
     # C11: every catalogued dialect clause on the plain body, and the creation modifiers that set dialect fields
-    for owner, clause, _d1, _d2 in c11.CAT:
+    for owner, clause, _d1, _d2 in c11.CAT[:c11.NCAT]:
         dial.append(("c11", c11.BODIES["plain"] + " " + clause + ";"))
     for head in ("CREATE EXTERNAL TABLE", "CREATE TEMPORARY TABLE", "CREATE TEMP TABLE", "CREATE TRANSIENT TABLE", "CREATE GLOBAL TEMPORARY TABLE",
                  "CREATE OR REPLACE TABLE", "CREATE TABLE IF NOT EXISTS"):
